@@ -3,6 +3,7 @@ import Dippy.Props.C17
 #print axioms Dippy.C17.table_facts
 #print axioms Dippy.C17.safeIn_cons
 #print axioms Dippy.C17.spec_cons
+#print axioms Dippy.C17.cluster_agrees
 #print axioms Dippy.C17.spec_holds
 #print axioms Dippy.C17.decideV_allowed
 #print axioms Dippy.C17.runs_analysed_file
